@@ -99,6 +99,8 @@ pub mod sampled {
         ServerDisconnect { addr: Addr },
         /// the endpoint itself connects to this address (a client-side peer on the same endpoint)
         ServerConnect { addr: Addr },
+        /// accept a peer that was left pending
+        ServerAccept { addr: Addr },
         Advance { ms: u64 },
         /// deliver everything in flight for this address, both ways, a few rounds (gets handshakes through)
         Pump { addr: Addr },
@@ -119,6 +121,8 @@ pub mod sampled {
         client_gone: bool,
         /// the endpoint's peer has delivered a chunk or was told Ready: it is online
         server_online: bool,
+        /// a pending peer the application has not decided about yet: the connect packet Net::accept will feed
+        pending: Option<&'static [u8]>,
         to_server: Vec<Vec<u8>>,
         to_client: Vec<Vec<u8>>,
         counter: u32,
@@ -151,6 +155,7 @@ pub mod sampled {
                     client_online: false,
                     client_gone: false,
                     server_online: false,
+                    pending: None,
                     to_server: Vec::new(),
                     to_client: Vec::new(),
                     counter: 0,
@@ -227,12 +232,12 @@ pub mod sampled {
                             _ => s.to_server.remove(0),
                         }
                     };
-                    feed_server(&mut net, &mut cb, &mut sides, &mut used_pids, addr, &data, accepting);
+                    feed_server(&mut net, &mut cb, &mut sides, &mut used_pids, addr, &data, accepting, [0, 0, 0, 1, 2, 2][action % 6]);
                 }
                 Op::Garbage { addr, a, b, c, len } => {
                     let mut d = vec![a, b, c];
                     d.resize(3 + len, a ^ b);
-                    feed_server(&mut net, &mut cb, &mut sides, &mut used_pids, addr, &d, accepting);
+                    feed_server(&mut net, &mut cb, &mut sides, &mut used_pids, addr, &d, accepting, [0, 0, 1, 2][len % 4]);
                 }
                 Op::ToClient { addr, action } => {
                     let s = sides.get_mut(&addr).unwrap();
@@ -301,6 +306,19 @@ pub mod sampled {
                         }
                     }
                 }
+                Op::ServerAccept { addr } => {
+                    let s = sides.get_mut(&addr).unwrap();
+                    if let (Some(pid), Some(pkt), Some(r)) = (s.pid, s.pending, s.reference.as_mut()) {
+                        if r.is_unconnected() {
+                            net.accept(&mut cb, pid).unwrap();
+                            let mut b3 = [0u8; 2048];
+                            let (mut none, res) = r.feed(&mut s.ref_cb, &mut Sink, pkt, &mut b3[..]);
+                            res.unwrap();
+                            assert!(none.next().is_none());
+                        }
+                        s.pending = None;
+                    }
+                }
                 Op::ServerConnect { addr } => {
                     let s = sides.get_mut(&addr).unwrap();
                     if s.pid.is_none() && s.reference.is_none() {
@@ -336,7 +354,7 @@ pub mod sampled {
                                 }
                                 s.to_server.remove(0)
                             };
-                            feed_server(&mut net, &mut cb, &mut sides, &mut used_pids, addr, &data, accepting);
+                            feed_server(&mut net, &mut cb, &mut sides, &mut used_pids, addr, &data, accepting, 0);
                             settle_outputs(&mut cb, &mut sides);
                         }
                         let s = sides.get_mut(&addr).unwrap();
@@ -379,12 +397,12 @@ pub mod sampled {
                             client_out(s);
                         }
                     }
-                    // timing: the endpoint's deadline is the earliest deadline of its peers
-                    let want = sides.values().filter_map(|s| s.reference.as_ref()).map(|r| r.needs_tick()).min().unwrap_or_default();
-                    assert!(net.needs_tick() == want, "tick deadline differs from the earliest deadline of the independent connections");
                 }
             }
             settle_outputs(&mut cb, &mut sides);
+            // timing: the endpoint's deadline is the earliest deadline of its peers (a pending peer has none)
+            let want = sides.values().filter_map(|s| s.reference.as_ref()).map(|r| r.needs_tick()).min().unwrap_or_default();
+            assert!(net.needs_tick() == want, "tick deadline differs from the earliest deadline of the independent connections");
             // live peer ids are distinct
             let live: Vec<PeerId> = sides.values().filter_map(|s| s.pid).collect();
             for i in 0..live.len() {
@@ -403,6 +421,7 @@ pub mod sampled {
         addr: Addr,
         data: &[u8],
         accepting: bool,
+        new_action: usize,
     ) {
         let mut buf = [0u8; 2048];
         let others_before: Vec<(Addr, Option<PeerId>)> = sides.iter().filter(|(a, _)| **a != addr).map(|(a, s)| (*a, s.pid)).collect();
@@ -443,6 +462,7 @@ pub mod sampled {
                 let pid = s.pid.take().unwrap();
                 s.reference = None;
                 s.server_online = false;
+                s.pending = None;
                 let mut probe = ChunkOrEvent::Chunk(Chunk { pid, vital: false, data: b"" });
                 assert!(!net.is_receive_chunk_still_valid(&mut probe), "peer still known after its disconnect");
             }
@@ -459,8 +479,25 @@ pub mod sampled {
                     assert!(events == vec![Ev::Connect]);
                     assert!(!used_pids.contains(&pid) || !sides.values().any(|x| x.pid == Some(pid)), "peer id of a live peer reused");
                     used_pids.push(pid);
-                    // the application accepts: from now on the address has its own connection
                     let s = sides.get_mut(&addr).unwrap();
+                    if new_action == 2 {
+                        // the application leaves the peer pending: an unconnected connection of its own
+                        s.pid = Some(pid);
+                        s.reference = Some(Connection::new());
+                        s.pending = Some(data_connect(data));
+                        return;
+                    }
+                    if new_action == 1 {
+                        // the application rejects: the peer is gone again, and what is sent is what an independent,
+                        // never accepted connection sends when it is disconnected
+                        net.reject(cb, pid, b"no").unwrap();
+                        let mut c = Connection::new();
+                        c.disconnect(&mut s.ref_cb, b"no").unwrap();
+                        let mut probe = ChunkOrEvent::Chunk(Chunk { pid, vital: false, data: b"" });
+                        assert!(!net.is_receive_chunk_still_valid(&mut probe), "rejected peer still known");
+                        return;
+                    }
+                    // the application accepts: from now on the address has its own connection
                     s.pid = Some(pid);
                     let mut c = Connection::new();
                     net.accept(cb, pid).unwrap();
@@ -523,6 +560,7 @@ pub mod proofs {
                 15 => Op::ServerSend { addr, vital: draw::bool(), len: [2, 7, 300][draw::usize_le(2)] },
                 19 => Op::ClientSend { addr, vital: true, len: 3 },
                 20 if draw::usize_le(2) == 0 => Op::ClientDisconnect { addr },
+                20 => Op::ServerAccept { addr },
                 16 => Op::ServerFlush { addr },
                 17 => match draw::usize_le(3) {
                     0 => Op::ServerDisconnect { addr },
